@@ -148,6 +148,88 @@ theorem lookup_star_bounds (s : Spec) (c : Conf) (pick : Pick) (now : Int) (hv :
     have := hv p hex
     exact ⟨this, hl, hr, hall _ this⟩
 
+/-! ## Option edge values: `--inactive-producer-timeout`, `--tombstone-lifetime` zero or negative
+
+`Conf` is universally quantified in every theorem of C14, so 0 and negative durations are covered; these
+corollaries say what the answers then ARE. Times are never in the future of the query (`lastUpdate ≤ now`,
+`τ ≤ now`: both are `time.Now()` readings taken before the query's). -/
+
+/-- `--tombstone-lifetime ≤ 0` disables tombstones: no tombstone is ever in force, so `/lookup` lists every
+connected, recently-pinged nsqd that registered the topic and every `/nodes` flag is false. -/
+theorem tombstone_lifetime_nonpositive_disables (s : Spec) (c : Conf) (now : Int) (hc : c.tombLife ≤ 0)
+    (hpast : ∀ p t τ, s.tomb p t τ → τ ≤ now) (p : Nat) (t : Name) :
+    ¬ s.tombActive c now p t ∧ (s.producers c t now p ↔ s.topicReg p t ∧ s.live p ∧ s.recent c now p) := by
+  have h : ¬ s.tombActive c now p t := by
+    intro ⟨τ, hτ, hlt⟩
+    have := hpast p t τ hτ
+    omega
+  exact ⟨h, by simp [Spec.producers, h]⟩
+
+/-- `--inactive-producer-timeout < 0` hides every nsqd from `/lookup` and `/nodes` (PINGs cannot help). -/
+theorem inactive_timeout_negative_hides_all (s : Spec) (c : Conf) (now : Int) (hc : c.inactive < 0)
+    (hpast : ∀ p pr, s.peer p = some pr → pr.lastUpdate ≤ now) (p : Nat) :
+    ¬ s.recent c now p ∧ (∀ t, ¬ s.producers c t now p) ∧ ¬ s.nodes c now p := by
+  have h : ¬ s.recent c now p := by
+    intro ⟨pr, hp, hle⟩
+    have := hpast p pr hp
+    omega
+  exact ⟨h, fun t hp => h hp.2.2.1, fun hn => h hn.2⟩
+
+/-- `--inactive-producer-timeout = 0`: an nsqd is listed only at the very instant of its last PING / IDENTIFY
+(in a real run: never, the query reads the clock later — this boundary is tied by the regenerated strict `>` only). -/
+theorem inactive_timeout_zero_only_same_instant (s : Spec) (c : Conf) (now : Int) (hc : c.inactive = 0)
+    (hpast : ∀ p pr, s.peer p = some pr → pr.lastUpdate ≤ now) (p : Nat) :
+    s.recent c now p ↔ ∃ pr, s.peer p = some pr ∧ pr.lastUpdate = now := by
+  unfold Spec.recent
+  constructor
+  · intro ⟨pr, hp, hle⟩; exact ⟨pr, hp, by have := hpast p pr hp; omega⟩
+  · intro ⟨pr, hp, he⟩; exact ⟨pr, hp, by omega⟩
+
+/-- the same on the model's answers: with a non-positive tombstone lifetime every `/nodes` flag is `false` … -/
+theorem nodes_flags_false_when_lifetime_nonpositive (c : Conf) (r : Registry) (h : WF r) (now : Int)
+    (hc : c.tombLife ≤ 0) (hpast : ∀ p t τ, (abs r).tomb p t τ → τ ≤ now) (p : Nat) :
+    ∀ t b, (t, b) ∈ nodeTopics c r p now → b = false := by
+  intro t b hm
+  have := (mem_nodeTopics c r p now h t b).mp hm
+  cases b with
+  | false => rfl
+  | true => exact absurd (this.2.mp rfl) (tombstone_lifetime_nonpositive_disables (abs r) c now hc hpast p t).1
+
+/-- … and with a negative inactivity timeout `/nodes` is empty and every `/lookup` producer list is empty. -/
+theorem answers_empty_when_inactive_negative (c : Conf) (r : Registry) (h : WF r) (now : Int)
+    (hc : c.inactive < 0) (hpast : ∀ p pr, (abs r).peer p = some pr → pr.lastUpdate ≤ now) :
+    qNodes c r now = [] ∧ ∀ t a, qLookup c r t now = some a → a.producers = [] := by
+  constructor
+  · cases hl : qNodes c r now with
+    | nil => rfl
+    | cons n ns =>
+      have hm : n ∈ qNodes c r now := by rw [hl]; exact List.mem_cons_self
+      exact absurd ((mem_qNodes c r now h n).mp hm).1
+        (inactive_timeout_negative_hides_all (abs r) c now hc hpast n.id).2.2
+  · intro t a ha
+    cases hl : a.producers with
+    | nil => rfl
+    | cons e es =>
+      have hm : (e.1, e.2) ∈ a.producers := by rw [hl]; exact List.mem_cons_self
+      exact absurd ((mem_lookup_producers c r t now a h ha e.1 e.2).mp hm).1
+        ((inactive_timeout_negative_hides_all (abs r) c now hc hpast e.1).2.1 t)
+
+/-! ## The read-only routes that take no argument -/
+
+def cfE : Conf := ⟨2500, 1500⟩
+def r2E : Registry := run init [.identify 1 ⟨[104], [110], [118], 1, 2⟩ 0, .register 1 [[116]]]
+
+/-- `GET /ping`, `/info`, `/debug`, `/topics`, `/nodes` answer 200 whatever the query string (even an unparsable
+one) and whatever the registry, and change nothing. (`/ping` = "OK" and `/info` = `{"version": …}`: tie
+`ping_info_shape`, compared byte-wise / key-wise by the HTTP sweep.) -/
+theorem read_routes_total (c : Conf) (r : Registry) (a : HttpArgs) (now : Int) (path : String)
+    (hp : path ∈ ["/ping", "/info", "/debug", "/topics", "/nodes"]) :
+    Nsq.Model.RegistryProto.httpStep c r "GET" path a now = (r, 200) := by
+  simp only [List.mem_cons, List.not_mem_nil, or_false] at hp
+  rcases hp with rfl | rfl | rfl | rfl | rfl <;> rfl
+
+example : Nsq.Model.RegistryProto.httpStep cfE r2E "GET" "/ping" ⟨true, none, none, none⟩ 0 = (r2E, 200) := rfl
+
 /-! ## Non-vacuity: the sets really have more than one element -/
 
 section Examples
@@ -178,6 +260,12 @@ example : (qLookupStar cf (tombstoneStar r2 (fun _ => tU) nodeA 100) (fun _ => t
 example : (qLookupStar cf (tombstoneStar r2 (fun _ => tU) nodeA 100) (fun _ => tU) 200).map
     (fun a => a.producers.map (·.1)) = some [] := by decide
 example : qLookupStar cf init (fun _ => tT) 0 = none := by decide
+/-- option edge values on a concrete history: tombstoned for `u`, lifetime 0 ⇒ still listed and flag false; inactivity −1 ⇒ gone -/
+example : ((qLookup ⟨2500, 0⟩ (tombstoneStar r2 (fun _ => tU) nodeA 100) tU 100).map (fun a => a.producers.map (·.1)),
+           (qNodes ⟨2500, 0⟩ (tombstoneStar r2 (fun _ => tU) nodeA 100) 100).map (·.topics)) =
+    (some [1], [[(tT, false), (tU, false)]]) := by decide
+example : ((qLookup ⟨-1, 1500⟩ r2 tT 0).map (fun a => a.producers.map (·.1)), qNodes ⟨-1, 1500⟩ r2 0) = (some [], []) := by
+  decide
 /-- a history through the relation: IDENTIFY, two REGISTERs, the wild-card tombstone resolved to `u` -/
 example : RunSet init [.identify 1 infoA 0, .register 1 [tT, [99]], .register 1 [tU, [99]], starOp]
     (tombstoneStar r2 (fun _ => tU) nodeA 100) :=
